@@ -38,10 +38,13 @@ def run(ctx, B):
     # ---- non-positive energy is an error ------------------------------------------------------
     for fn, args in (("CS_KN", [[0.0, -1.0]]), ("DCS_KN", [[0.0, -1.0], [1.0, 1.0]]), ("ComptonEnergy", [[0.0, -1.0], [1.0, 1.0]]),
                      ("MomentTransf", [[0.0, -1.0], [1.0, 1.0]]), ("DCSP_KN", [[0.0, -1.0], [1.0, 1.0], [1.0, 1.0]])):
-        r = X.call(fn, *args); ctx.add(evaluations=len(r))
+        r = X.call(fn, *args); r1 = X.call(fn, *args, mode=xrl.M_NULL); ctx.add(evaluations=2 * len(r))
         for j in range(len(r)):
             if not (r["flags"][j] & F_ERR) or r["v0"][j] != 0:
                 V("%s|nonpositive-energy" % fn, "%s with E <= 0 must fail" % fn, [dict(fn=fn, args=[a[j] for a in args], expect=dict(type="error"))])
+            if not (r1["v0"][j] == 0):          # without an error slot the 0 sentinel is the caller's only signal
+                V("%s|nonpositive-energy|no-error-slot" % fn, "%s with E <= 0 and no error slot returns %r instead of 0" % (fn, float(r1["v0"][j])),
+                  [dict(fn=fn, args=[a[j] for a in args], expect=dict(type="noslot-same"))])
     # ---- grids --------------------------------------------------------------------------------
     EE, TT = domains.product(Es, th)
     dkn = X.call("DCS_KN", EE, TT); ce = X.call("ComptonEnergy", EE, TT)
